@@ -258,6 +258,20 @@ def run(ctx):
             if bad:
                 ctx.violation(f'{w.name} element {a}: ' + '; '.join(bad),
                               {'kind': 'pickle', 'spec': ['poly', w.p, w.mod], 'a': a, 'failed': bad})
+    # extension fields built from a NON-MONIC irreducible modulus (c*f defines the same field as f; GF accepts it)
+    for spec in (['poly', 3, [2, 0, 2]], ['poly', 5, [1, 0, 3]], ['poly', 7, [3, 0, 0, 5]], ['poly', 3, [2, 1, 0, 2]]):
+        try:
+            make_field(spec)
+        except ValueError:
+            continue          # not irreducible: not a field
+        for a in (0, 1, 2, 5, 7):
+            ctx.case(('pickle', tuple(map(str, spec)), a))
+            ctx.count('pickle:poly-nonmonic')
+            bad = pickle_failures(spec, a)
+            if bad:
+                ctx.violation(f'GF{tuple(spec[1:])} (non-monic modulus) element {a}: ' + '; '.join(bad),
+                              {'kind': 'pickle', 'spec': spec, 'a': a, 'failed': bad})
+                break
     for spec in (['int', 101], ['poly', 2, [1, 1, 0, 1, 1, 0, 0, 0, 1]], ['tuple', 7, 2, 6]):
         ctx.case(('pickle-after-many-fields', tuple(map(str, spec))))
         ctx.count('pickle:after-many-other-fields')
